@@ -4,12 +4,13 @@ method in that window got a bare `KeyError` from `_getFuncName`.
 C19: a call returns its result or raises with a failure reason or 'Timeout'. C17: a call uses the newest
 implementation not above the enabled version (there is always one here: `f` has a version 0).
 
-Deterministic replay with a REAL second thread: a consumer carries a property that `__onSetCodeVersion` reads while it
-scans `dir(consumer)` - i.e. after the table was emptied and before it is refilled. The first armed read hands control
-to the caller thread (which calls `obj.f(x)` and `consumer.g(x)`) and waits until that thread is done: the scan is
-"slowed" exactly inside the window. Both trigger sites are exercised: a VERSION entry applied by a real tick of a
-single-node cluster, and `__loadDumpFile`."""
+Deterministic replay with a REAL second thread, independent of WHERE in the function the table is incomplete:
+`__onSetCodeVersion` runs on the tick thread under `sys.settrace` line tracing; before every line of it a second thread
+calls `obj.f(x)` and `consumer.g(x)` and is joined. Every such call must resolve (no KeyError) with the old or the new
+complete table. Both trigger sites are exercised: a VERSION entry applied by a real tick of a single-node cluster, and
+`__loadDumpFile`."""
 import random
+import sys
 import threading
 import time
 
@@ -23,26 +24,6 @@ SIG = "syncobj.onSetCodeVersion:call-during-table-rebuild-raises-keyerror"
 SIG_IMPL = "syncobj.onSetCodeVersion:call-during-table-rebuild-wrong-implementation"
 SPEC = {"objs": [[("f", 0, "r"), ("f", 1, "r")], [("g", 0, "r"), ("g", 1, "r")]]}
 
-PROBE_SRC = '''
-class Probe(object):
-    """shared between the generated consumer class and the witness"""
-    armed = False
-    go = None
-    done = None
-    reads = 0
-
-def _probe_get(self):
-    if Probe.armed:
-        Probe.armed = False
-        Probe.reads += 1
-        Probe.go.set()              # let the caller thread run now ...
-        Probe.done.wait(5.0)        # ... and hold the scan until it has made its calls
-    return None
-
-C1.scan_point = property(_probe_get)
-'''
-
-
 def _ticks(b, clock, n, dt=0.5):
     for _ in range(n):
         clock.t += dt
@@ -50,19 +31,16 @@ def _ticks(b, clock, n, dt=0.5):
 
 
 def _window(b, trigger, label, seen):
-    """Arm the probe, start the caller thread, run `trigger` on this (tick) thread; returns what the caller saw."""
-    P = b.g["Probe"]
-    P.go, P.done = threading.Event(), threading.Event()
-    out = {"calls": [], "in_window": False}
+    """Run `trigger` on this (tick) thread under line tracing of `__onSetCodeVersion`: before EVERY line of that function
+    a real second thread calls `obj.f(x)` and `consumer.g(x)` and is joined - wherever in the function the table is
+    incomplete (emptied at the start, refilled entry by entry, cleared and updated at the end ...), some call falls into
+    the window. Returns what the caller thread saw at each point."""
+    out = {"points": 0, "raised": [], "resolved": []}
     got = []
     so = b.obj
     so._applyCommand = lambda command, callback, commandType=None: got.append(command)
 
-    def caller():
-        if not P.go.wait(5.0):
-            P.done.set()
-            return
-        out["in_window"] = True
+    def caller(lineno):
         for name, fn in (("f", lambda: so.f(7, callback=lambda *a: None)),
                          ("g", lambda: b.consumers[0].g(7, callback=lambda *a: None))):
             n0 = len(got)
@@ -71,29 +49,39 @@ def _window(b, trigger, label, seen):
                 cmd = b.ns["pickle"].loads(got[n0])
                 fid = cmd[0] if isinstance(cmd, tuple) else cmd
                 m = so._idToMethod[fid]
-                out["calls"].append([name, "ok", m.origName, m.ver])
+                out["resolved"].append((name, m.origName, m.ver))
             except Exception as e:            # what the user's thread gets
-                out["calls"].append([name, "raised", type(e).__name__, getattr(e, "errorCode", None)])
-        P.done.set()
+                out["raised"].append([name, type(e).__name__, getattr(e, "errorCode", None), lineno])
 
-    t = threading.Thread(target=caller)
-    t.start()
-    P.armed = True
+    def local_trace(frame, event, arg):
+        if event == "line":
+            out["points"] += 1
+            t = threading.Thread(target=caller, args=(frame.f_lineno,))
+            t.start()
+            t.join(10.0)
+        return local_trace
+
+    def global_trace(frame, event, arg):
+        if event == "call" and frame.f_code.co_name == "__onSetCodeVersion":
+            return local_trace
+        return None
+
+    old = sys.gettrace()
+    sys.settrace(global_trace)
     try:
         trigger()
     finally:
-        P.armed = False
-        P.go.set()
-        t.join(10.0)
+        sys.settrace(old)
         del so._applyCommand
-    seen[label] = out
+    seen[label] = {"points": out["points"], "raised": out["raised"][:4], "n_raised": len(out["raised"]),
+                   "resolved": sorted(set(out["resolved"]))}
     return out
 
 
 def scenario(ctx):
     ns = L.load(ctx.repo)
     clock = L.Clock(ns)
-    src = L.source_of(SPEC, random.Random(1)) + PROBE_SRC
+    src = L.source_of(SPEC, random.Random(1))
     seen = {}
     viols = []
     try:
@@ -115,20 +103,24 @@ def scenario(ctx):
         clock.restore()
     for label in ("version_switch", "dump_load"):
         w = seen[label]
-        if not w["in_window"]:
-            viols.append({"signature": "witness.d72:window-not-reached", "what": "%s: the scan never read the consumer's attribute" % label})
+        if w["points"] < 10:
+            viols.append({"signature": "witness.d72:window-not-reached",
+                          "what": "%s: __onSetCodeVersion was traced at %d points only" % (label, w["points"])})
             continue
-        bad = [c for c in w["calls"] if c[1] == "raised" and c[2] != "SyncObjException"]
+        bad = [c for c in w["raised"] if c[1] != "SyncObjException"]
         if bad:
             viols.append({"signature": SIG,
                           "what": "%s: a replicated call made by another thread while __onSetCodeVersion rebuilt the name table raised %s "
-                                  "(calls: %r)" % (label, bad[0][2], w["calls"])})
+                                  "(%d of the calls made at %d points of the function; first: %r)"
+                                  % (label, bad[0][1], w["n_raised"], w["points"], bad[0])})
             continue
         # atomic switch: every call resolves to the newest implementation for the old or for the new version
         ok_vers = (0, 1) if label == "version_switch" else (1,)
-        wrong = [c for c in w["calls"] if c[1] == "ok" and (c[2] != c[0] or c[3] not in ok_vers)]
+        wrong = [c for c in w["resolved"] if c[1] != c[0] or c[2] not in ok_vers]
         if wrong:
-            viols.append({"signature": SIG_IMPL, "what": "%s: calls during the rebuild went out as %r" % (label, w["calls"])})
+            viols.append({"signature": SIG_IMPL, "what": "%s: calls during the rebuild went out as %r" % (label, w["resolved"])})
+    seen = {k: ({kk: [list(x) for x in vv] if isinstance(vv, list) else vv for kk, vv in v.items()} if isinstance(v, dict) else v)
+            for k, v in seen.items()}
     return viols, seen
 
 
